@@ -70,7 +70,30 @@ extern "C" void harness(void)
   }
   for (unsigned s = 0; s < NS; ++s) if (A.fin[s]) aut.SetStateFinal(stateOf(s));
 
+#ifndef VIA
+#define VIA 0
+#endif
+  // VIA: the automaton that is complemented is A itself (0) or an object that received A's value: 1 copy assignment into an
+  // object that was associated with another on-the-fly alphabet {x:0, y:0, z:1} and held a rule over it, 2 copy construction,
+  // 3 move assignment into such an object.  The value of an automaton includes the alphabet it is associated with.
+#if VIA == 1 || VIA == 3
+  ExplicitTreeAut other;
+  { ExplicitTreeAut::AlphabetType alph2(new ExplicitTreeAut::OnTheFlyAlphabet); other.SetAlphabet(alph2);
+    ExplicitTreeAut::AbstractAlphabet::FwdTranslatorPtr reg2 = other.GetAlphabet()->GetSymbolTransl();
+    const unsigned long x = (*reg2)(ExplicitTreeAut::StringRank("x", 0)); (*reg2)(ExplicitTreeAut::StringRank("y", 0)); (*reg2)(ExplicitTreeAut::StringRank("z", 1));
+    other.AddTransition(ExplicitTreeAut::StateTuple(), x, 0); other.SetStateFinal(0); }
+#if VIA == 1
+  other = aut;
+#else
+  { ExplicitTreeAut tmp(aut); other = std::move(tmp); }
+#endif
+  ExplicitTreeAut cmpl = other.Complement();
+#elif VIA == 2
+  ExplicitTreeAut other(aut);
+  ExplicitTreeAut cmpl = other.Complement();
+#else
   ExplicitTreeAut cmpl = aut.Complement();
+#endif
 
   // ---- decode the result by iterating it: every rule must be a rule over the alphabet (symbol with its rank).  The state
   // numbers of the result are NOT interpreted (how Complement numbers its macro-states is not part of the contract): the
